@@ -165,7 +165,7 @@ class XBoom(Exception):
 def exitstack_flavours(rep, rng, tier):
     """the same stack of pushed exits and callbacks, each given as def / async def / partial(async def) / callable object"""
     fails = 0
-    for _ in range(60 if tier == "quick" else 1000):
+    for _ in range(60 if tier == "quick" else 5000):
         n = rng.randrange(1, 5)
         spec = [(rng.choice(["push", "callback"]), rng.choice(["falsy", "truthy", "raise"])) for _ in range(n)]
         block = rng.choice([None, 7])
@@ -262,7 +262,7 @@ def run(tier, seed):
     proofs_ok = proof_stage(rep, "C03")
     rng = random.Random(seed)
     fails = 0
-    per = 12 * common.scale(rep) if tier == "quick" else 150
+    per = 12 * common.scale(rep) if tier == "quick" else 400
     nassign = 3 if tier == "quick" else 8
     dist = {}
     for name in ITER_TOOLS + AGG_TOOLS:
@@ -339,7 +339,7 @@ def run(tier, seed):
             r.close()
     # the awaitify wrapper against Model/Awaitify.v
     texts = []
-    for _ in range(300 if tier == "quick" else 5000):
+    for _ in range(300 if tier == "quick" else 20000):
         fl, reactions = awaitify_history(rng)
         obs = run_awaitify(fl, reactions)
         rep.count(("awaitify", fl, tuple(reactions)), len(reactions) > 1)
